@@ -2,6 +2,7 @@
 import itertools
 import multiprocessing
 import os
+import re
 import shutil
 
 import cli
@@ -128,6 +129,34 @@ def _hardlink_job(args):
     changed = sorted(k for k, a, b in cli.snapshot_diff(before, after) if not ((a or b)[0] == "d" and a is not None and b is not None))
     shutil.rmtree(work, ignore_errors=True)
     return other_fs, same_dev, structured, check, r.exit, r.panicked, changed, left
+
+
+def _nonutf8_job(args):
+    """File and directory names that are not valid UTF-8 (a Latin-1 name from an old archive): the files are regular files below source_dir
+    with the configured extension like any other."""
+    work, check = args
+    root = os.path.join(work, "nu")
+    src = os.path.join(root, "proj", "src")
+    names = ["ok.rs", "caf\udce9.rs", "d\udcff/in.rs"]          # surrogate-escaped bytes 0xE9, 0xFF
+    for n in names:
+        p = os.path.join(src, n)
+        os.makedirs(os.path.dirname(p), exist_ok=True)
+        with open(p, "w") as f:
+            f.write(STMT)
+    with open(os.path.join(root, "proj", "Breadlog.yaml"), "w") as f:
+        f.write(cli.config_yaml("./src", macros=[("log", "info")], use_cache=False))
+    tmp = os.path.join(work, "tmp")
+    os.makedirs(tmp)
+    r = cli.run_breadlog(os.path.join(root, "proj", "Breadlog.yaml"), check=check, cwd=root, tmpdir=tmp, timeout=30)
+    m = re.search(rb"Total missing references \(all files\): ([0-9]+)", r.stdout)
+    total = int(m.group(1)) if m else None
+    edited = []
+    for n in names:
+        with open(os.path.join(src, n), "rb") as f:
+            if f.read() != STMT.encode():
+                edited.append(n)
+    shutil.rmtree(work, ignore_errors=True)
+    return check, r.exit, r.panicked, total, [n.encode("utf-8", "surrogateescape").decode("latin-1") for n in edited], len(names)
 
 
 def _cfglink_job(args):
@@ -279,6 +308,25 @@ def run(tier, v):
                              "changed": changed, "left_in_tmpdir": left})
     v.subspace("in-scope files with a second (hard-linked) name outside the project / outside source_dir / with another extension x TMPDIR on {the same, "
                "another} file system x style x mode", len(hjobs))
+    # names that are not valid UTF-8
+    njobs = []
+    for check in (True, False):
+        w = os.path.join(base, "n%d" % len(njobs))
+        os.makedirs(w)
+        njobs.append((w, check))
+    with multiprocessing.Pool(2) as pool:
+        for check, ex_, pan_, total, edited, nfiles in pool.map(_nonutf8_job, njobs):
+            v.count()
+            v.distinct(("non-utf8-names", check))
+            if pan_:
+                v.violation("non-utf8-file-name:abnormal-termination", {"mode": "check" if check else "edit", "exit": ex_})
+            elif check and total != nfiles:
+                v.violation("non-utf8-file-name:file-not-processed:check", {"files_with_a_missing_reference": nfiles, "reported_total": total, "exit": ex_,
+                                                                            "names": "ok.rs, caf<E9>.rs, d<FF>/in.rs"})
+            elif not check and len(edited) != nfiles:
+                v.violation("non-utf8-file-name:file-not-processed:edit", {"files_with_a_missing_reference": nfiles, "edited": edited, "exit": ex_,
+                                                                           "names": "ok.rs, caf<E9>.rs, d<FF>/in.rs"})
+    v.subspace("file and directory names that are not valid UTF-8 (bytes 0xE9, 0xFF) x mode", len(njobs))
     # the configuration file itself is a symbolic link
     cjobs = []
     for naming, check in itertools.product(("bare", "dot-slash", "relative", "absolute"), (True, False)):
